@@ -16,8 +16,8 @@ c12 = importlib.util.module_from_spec(spec)
 spec.loader.exec_module(c12)
 
 USES = ["write", "read", "pwrite", "pread", "seek", "tell", "filestat", "prestat", "prestatname", "readdir", "fdstat", "sync",
-        "open-as-dir", "open-abs", "open-abs-creat", "mkdir", "unlink", "pathstat", "rename", "readlink"]
-PATHUSES = ["open-as-dir", "open-abs", "open-abs-creat", "mkdir", "unlink", "pathstat", "rename", "readlink"]
+        "open-as-dir", "open-abs", "open-abs-creat", "mkdir", "unlink", "pathstat", "rename", "rename-new", "rename-new-abs", "rename-old", "readlink"]
+PATHUSES = ["open-as-dir", "open-abs", "open-abs-creat", "mkdir", "unlink", "pathstat", "rename", "rename-new", "rename-new-abs", "rename-old", "readlink"]
 
 
 def use(kind, fd, abi):
@@ -37,6 +37,11 @@ def use(kind, fd, abi):
         return {"call": kind, "abi": abi, "dirfd": fd, "path": "zz"}
     if kind == "rename":
         return {"call": "rename", "abi": abi, "dirfd": fd, "fd": fd, "path": "a", "path2": "zz"}
+    # path_rename takes two descriptors: each of them alone may be the dead one (the other is the pre-open)
+    if kind in ("rename-new", "rename-new-abs"):
+        return {"call": "rename", "abi": abi, "dirfd": 3, "fd": fd, "path": "a", "path2": "zz", "abs2": kind.endswith("abs")}
+    if kind == "rename-old":
+        return {"call": "rename", "abi": abi, "dirfd": fd, "fd": 3, "path": "a", "path2": "zz"}
     return {"call": kind, "abi": abi, "fd": fd}
 
 
@@ -66,6 +71,18 @@ def lifecycle_histories(rng, tier):
         for k1 in PATHUSES:
             calls = list(opens) + [use(k1, x, rng.choice("pu")), {"call": "open", "abi": "p", "dirfd": 3, "path": "a", "abs": False, "oflags": 0, "rd": True, "wr": False, "app": False}]
             hs.append({"id": "s%d" % n, "setup": setup, "calls": calls})
+            n += 1
+    # a listed directory that disappears: listing it again from the start must not leave a released stream behind
+    for gone in ("rmdir", "rename"):
+        for tail in (["close"], ["readdir", "close"], ["readdir", "readdir", "close", "close"]):
+            calls = [{"call": "open", "abi": "p", "dirfd": 3, "path": "e", "abs": False, "oflags": 2, "rd": True, "wr": False, "app": False},
+                     {"call": "readdir", "abi": "p", "fd": 4, "buflen": 256, "cookie": 0},
+                     {"call": "rmdir", "abi": "p", "dirfd": 3, "path": "e"} if gone == "rmdir" else
+                     {"call": "rename", "abi": "p", "dirfd": 3, "fd": 3, "path": "e", "path2": "e2", "parent2": ""},
+                     {"call": "readdir", "abi": "u", "fd": 4, "buflen": 256, "cookie": 0}]
+            for t_ in tail:
+                calls.append({"call": "readdir", "abi": "p", "fd": 4, "buflen": 256, "cookie": 0} if t_ == "readdir" else {"call": "close", "abi": "p", "fd": 4})
+            hs.append({"id": "g%d" % n, "setup": setup + [{"call": "mkdirs", "path": "e"}], "calls": calls})
             n += 1
     for x in (6, 7, 100, 0xFFFFFFFF, 0x7FFFFFFF):
         for k1 in USES + ["close"]:
